@@ -312,7 +312,10 @@ class Harness:
                 self.proc.kill()
 
 
-def harness_batch(reqs, timeout=600, jobs=8):
+BATCH_STATS = {"max_gap_s": 0.0}
+
+
+def harness_batch(reqs, timeout=600, jobs=8, stall=120):
     """Runs many independent requests through several `harness serve`
     children at once; falls back to one-at-a-time attribution for a shard whose
     child dies or hangs.  Returns responses in request order."""
@@ -323,17 +326,50 @@ def harness_batch(reqs, timeout=600, jobs=8):
     shards = [reqs[i::jobs] for i in range(jobs)]
 
     def work(shard):
+        """Streams the shard through one child; when the child dies, or gives no answer for `stall` seconds, the answers it
+        did give are kept and the rest of the shard is asked one request at a time (which attributes the crash or hang)."""
+        import select
+        import threading
         data = "".join(json.dumps(r) + "\n" for r in shard).encode()
+        got = []
         try:
-            p = subprocess.run([HARNESS_BIN, "serve"], input=data, stdout=subprocess.PIPE,
-                               stderr=subprocess.DEVNULL, env=ENV, timeout=timeout)
-            lines = [l for l in p.stdout.decode().split("\n") if l.strip()]
-            if p.returncode == 0 and len(lines) == len(shard):
-                return [json.loads(l) for l in lines]
-        except subprocess.TimeoutExpired:
+            p = subprocess.Popen([HARNESS_BIN, "serve"], stdin=subprocess.PIPE, stdout=subprocess.PIPE,
+                                 stderr=subprocess.DEVNULL, env=ENV)
+
+            def feed():
+                try:
+                    p.stdin.write(data)
+                    p.stdin.close()
+                except (BrokenPipeError, OSError, ValueError):
+                    pass
+            th = threading.Thread(target=feed, daemon=True)
+            th.start()
+            t_end = time.time() + timeout
+            buf = b""
+            fd = p.stdout.fileno()
+            while len(got) < len(shard):
+                t_wait = time.time()
+                r, _, _ = select.select([fd], [], [], stall)
+                if not r or time.time() > t_end:
+                    break
+                BATCH_STATS["max_gap_s"] = max(BATCH_STATS["max_gap_s"], time.time() - t_wait)
+                chunk = os.read(fd, 1 << 20)
+                if not chunk:
+                    break
+                buf += chunk
+                *lines, buf = buf.split(b"\n")
+                for l in lines:
+                    if l.strip():
+                        got.append(json.loads(l))
+            if p.poll() is None:
+                p.kill()
+            p.wait()
+        except Exception:
             pass
-        h = Harness()
-        res = [h.ask(r) for r in shard]
+        if len(got) == len(shard):
+            return got
+        h = Harness(case_timeout=max(20.0, stall / 2))
+        res = got + [h.ask(r) for r in shard[len(got):]]
         h.close()
         return res
 
